@@ -586,6 +586,11 @@ def fn_resolver(exe, fn_name):
         if d is None:
             if name in exe.tu.enum_consts:
                 return exe.tu.enum_consts[name]
+            if name in exe.tu.globals:          # a file-scope variable of the translation unit, read like the code reads it
+                p = exe.global_ptr(exe.tu.globals[name])
+                if isinstance(p.ct, (TStruct, TArr)):
+                    return PtrView(exe, st, p)
+                return view(exe, st, st.load(exe._normalize(p)), p.ct)
             return _MISSING
         p = exe.local_ptr(d)
         if isinstance(p.ct, (TStruct, TArr)):
